@@ -108,9 +108,9 @@ func bad(format string, a ...any) verdict {
 // checker is one builtin (or family) with its generator and oracle.
 type checker struct {
 	name   string
-	covers []string                  // exported identifiers of package builtin exercised by this checker
-	weight int                       // relative share of the call budget (default 1)
-	gen    func(g *G) Args           // input generator
+	covers []string                     // exported identifiers of package builtin exercised by this checker
+	weight int                          // relative share of the call budget (default 1)
+	gen    func(g *G) Args              // input generator
 	check  func(a Args, e *env) verdict // oracle; runs the builtin under the panic sentinel
 }
 
@@ -161,7 +161,7 @@ func (prop) Drive(d *core.Driver) error {
 		}
 	}
 	perUnit := d.N(150, 1000) // calls per weight unit and batch
-	batches := d.N(12, 96)    // batches (= seeds) per checker
+	batches := d.N(12, 320)   // batches (= seeds) per checker
 	var cases []core.Case
 	names := append([]string{}, checkerOrder...)
 	sort.Strings(names)
